@@ -140,6 +140,23 @@ def gen_config(rng, tier, index=0):
 # ---------------------------------------------------------------------------
 
 
+def error_text(err):
+    """Exception chain (or the remote traceback text that came back from a simulated worker) as text."""
+    import traceback
+    out = []
+    seen = set()
+    while err is not None and id(err) not in seen:
+        seen.add(id(err))
+        out.append(getattr(err, "_sim_remote_traceback", "") or "".join(traceback.format_exception(type(err), err, err.__traceback__)))
+        err = err.__cause__ or err.__context__
+    return "\n".join(out)
+
+
+def is_o2(err):
+    t = error_text(err)
+    return "_genotype_posterior_as_array" in t and "IndexError" in t
+
+
 def multi_core(var):
     return var["cores"] > 1
 
@@ -199,10 +216,9 @@ class Batch:
         cfg = self.cfg
         a = ["--bam"] + ds["bam_files"] + ["--ploidy", ds["ploidy_arg"]]
         rep = list(cfg["report"])
-        if program == "assemble":
-            # Observation O2 (DESIGN.md): assemble --report GP raises IndexError when the reference
-            # haplotype is masked (G-array sized without the reference).  C07/C13 territory, not C08.
-            rep = [x for x in rep if x != "GP"]
+        # Observation O2 (DESIGN.md): assemble --report GP raises IndexError when the reference haplotype is
+        # masked (G-array sized without the reference).  C07/C13 territory: a batch whose canonical run fails
+        # that way is skipped (see is_o2), it is not a C08 violation.
         if rep:
             a += ["--report"] + rep
         return a
